@@ -55,6 +55,17 @@ class Rune:                      # an immutable value object (frozen dataclass):
         return f"{self.glyph}^{self.power}"
 
 
+@dataclasses.dataclass
+class Kit:                       # a dataclass holding other dataclass instances, directly and inside its containers
+    name: str
+    main: object
+    spare: list
+    notes: dict
+
+    def size(self):
+        return 1 + len(self.spare)
+
+
 class Bonus:                     # a plain attribute object that is also callable (a modifier applied as bonus(10))
     def __init__(self, amount, kind):
         self.amount = amount
